@@ -237,8 +237,9 @@ func evalRTP(buf []byte, tag string) {
 			ctx.Failf(idx, "rtp-header-size-out-of-range", in, "header.Unmarshal returned %d for %d bytes", hs, len(buf))
 		}
 		ps := int(fpkt.Header.PaddingSize)
-		if !bytes.Equal(fpkt.Payload, orig[hs:len(buf)-ps]) {
-			ctx.Failf(idx, "fast-rtp-wrong-payload", in, "payload is not buf[%d:%d]", hs, len(buf)-ps)
+		if ps != 0 && ps != int(buf[len(buf)-1]) || ps != 0 && !header.Padding || header.Padding && ps != int(buf[len(buf)-1]) ||
+			hs > len(buf)-ps || !bytes.Equal(fpkt.Payload, orig[hs:len(buf)-ps]) {
+			ctx.Failf(idx, "fast-rtp-wrong-payload", in, "payload (%d bytes, padding size %d) is not buf[%d:%d] of %s", len(fpkt.Payload), ps, hs, len(buf)-ps, hexs(buf))
 		}
 		if perr != nil {
 			if header.Padding && buf[len(buf)-1] == 0 && rtpErrClass(perr) == 4 {
@@ -648,12 +649,21 @@ func handSDES(r *hx.Rand, mode int) []byte {
 		}
 	case 5: // non-zero tail of one byte: "len(body) < 2"
 		for len(body)%4 != 3 {
-			body = append(body, 0x01, 0x00)
-		}
-		for len(body)%4 != 3 {
-			body = append(body, 0x01)
+			if len(body)%2 == 0 {
+				body = append(body, 0x01, 0x01, byte(r.Intn(256)))
+			} else {
+				body = append(body, 0x01, 0x00)
+			}
 		}
 		body = append(body, byte(1+r.Intn(255)))
+	case 6: // two well-formed chunks (count 2) in front of a SDES without END: strict fails on the second, tolerant on the first
+		body = append(body, 0)
+		for len(body)%4 != 0 {
+			body = append(body, 0)
+		}
+		body = append(body, be32b(uint32(r.U64()))...)
+		body = append(body, 1, 2, 'x', 'y', 0, 0, 0, 0)
+		return append(append(rtcpHdr(false, 2, 202, len(body)/4), body...), handSDES(r, 0)...)
 	}
 	for len(body)%4 != 0 {
 		body = append(body, 0)
@@ -714,7 +724,7 @@ func genRTCPOne(r *hx.Rand) []byte {
 	case 11:
 		p = &rtcp.ExtendedReport{SenderSSRC: ssrc, Reports: []rtcp.ReportBlock{&rtcp.DLRRReportBlock{Reports: []rtcp.DLRRReport{{SSRC: uint32(r.U64()), LastRR: uint32(r.U64()), DLRR: uint32(r.U64())}}}}}
 	case 12, 13:
-		return handSDES(r, r.Intn(6))
+		return handSDES(r, r.Intn(7))
 	default:
 		// header written by hand over a random body: every type / count combination, padding bit included
 		words := r.Intn(6)
@@ -833,7 +843,7 @@ func main() {
 			}
 		}
 	}
-	for i := ctx.Budget(1500, 60000); i > 0; i-- {
+	for i := ctx.Budget(4000, 60000); i > 0; i-- {
 		n := r.Intn(64)
 		if r.Intn(8) == 0 {
 			n = r.Intn(1500)
@@ -847,7 +857,7 @@ func main() {
 	}
 
 	// ---- kind 2
-	reps := ctx.Budget(1, 12)
+	reps := ctx.Budget(2, 12)
 	for rep := 0; rep < reps; rep++ {
 		for cc := 0; cc <= 15; cc++ {
 			for ext := 0; ext <= 3; ext++ {
@@ -870,7 +880,7 @@ func main() {
 			}
 		}
 	}
-	for i := ctx.Budget(2500, 100000); i > 0; i-- {
+	for i := ctx.Budget(7000, 100000); i > 0; i-- {
 		s := rtpShape{cc: r.Intn(16), ext: r.Intn(4), padMode: r.Intn(6), plen: r.Intn(40)}
 		if r.Intn(3) == 0 {
 			s.cc = 0
@@ -889,7 +899,7 @@ func main() {
 			evalRTP(m, "mutated")
 		}
 	}
-	for i := ctx.Budget(1500, 50000); i > 0; i-- {
+	for i := ctx.Budget(4000, 50000); i > 0; i-- {
 		b := r.Bytes(r.Intn(48))
 		if len(b) > 0 && r.Bool() {
 			b[0] = b[0]&0x3f | 0x80
@@ -898,7 +908,7 @@ func main() {
 	}
 
 	// ---- kind 3
-	for i := ctx.Budget(2500, 100000); i > 0; i-- {
+	for i := ctx.Budget(6000, 100000); i > 0; i-- {
 		b := genRTCP(r)
 		evalRTCP(b, "valid-shape")
 		if i%9 == 0 || ctx.Thorough && i%3 == 0 {
@@ -912,7 +922,7 @@ func main() {
 		}
 		evalRTCP(m, "mutated")
 	}
-	for i := ctx.Budget(1500, 50000); i > 0; i-- {
+	for i := ctx.Budget(4000, 50000); i > 0; i-- {
 		b := r.Bytes(4 * r.Intn(10))
 		if r.Intn(4) == 0 {
 			b = r.Bytes(r.Intn(40))
